@@ -120,6 +120,7 @@ func doSelfTestTo(prop, repo, verif string, w io.Writer) int {
 	// what is not discharged on the tree itself (known findings): the reference for the negative controls
 	baseline = nil
 	propRules = nil
+	selfProp = prop
 	if prop != "" {
 		propRules = map[string]bool{}
 		for _, r := range rules.ForProp(prop) {
@@ -131,7 +132,7 @@ func doSelfTestTo(prop, repo, verif string, w io.Writer) int {
 			baseline = notDischarged(self, repo)
 		}
 	}
-	sem := make(chan struct{}, 12)
+	sem := make(chan struct{}, 6)
 	var wg sync.WaitGroup
 	for i, m := range sel {
 		wg.Add(1)
@@ -194,8 +195,14 @@ func runMutant(self, repo, verif string, m Mutant) (bool, string) {
 	if out, err := exec.Command("patch", args...).CombinedOutput(); err != nil {
 		return true, fmt.Sprintf("STALE (skipped): patch does not apply to the current tree: %s", firstLine(string(out)))
 	}
-	cmd := exec.Command(self, "-all", "-json", "-repo", tmp)
-	cmd.Env = append(os.Environ(), "GOCACHE="+goCache())
+	argv := []string{"-all", "-json", "-repo", tmp}
+	if selfProp != "" {
+		argv = append(argv, "-prop", selfProp) // per-property self-test: only that property's rules run on the copy
+	}
+	cmd := exec.Command(self, argv...)
+	// many analyses run side by side: two threads each (the default of one per core for every process, `go list`
+	// children included, made them four times slower through scheduler and GC contention)
+	cmd.Env = append(os.Environ(), "GOCACHE="+goCache(), "GOMAXPROCS=2", "GOGC=200")
 	out, err := cmd.Output()
 	if err != nil {
 		if ee, ok := err.(*exec.ExitError); !ok || ee.ExitCode() != 3 {
@@ -243,7 +250,21 @@ func runMutant(self, repo, verif string, m Mutant) (bool, string) {
 		return true, "nothing reported"
 	}
 	var hit []string
-	for _, e := range m.Expect {
+	expect := m.Expect
+	if propRules != nil {
+		// only this property's rules ran: the expectations that belong to them
+		expect = nil
+		for _, e := range m.Expect {
+			parts := strings.SplitN(e, "/", 3)
+			if len(parts) >= 2 && propRules[parts[0]+"/"+parts[1]] {
+				expect = append(expect, e)
+			}
+		}
+		if len(expect) == 0 {
+			return true, "STALE (skipped): reported by rules of another property only"
+		}
+	}
+	for _, e := range expect {
 		found := false
 		for _, o := range res.Obligations {
 			if o.Status != core.Discharged && strings.HasPrefix(o.Key(), e) {
@@ -260,6 +281,7 @@ func runMutant(self, repo, verif string, m Mutant) (bool, string) {
 }
 
 var (
+	selfProp  string // property whose self-test is running ("" = the complete one)
 	baseline  map[string]bool
 	propRules map[string]bool // rules of the property under test (nil: all)
 )
@@ -267,8 +289,12 @@ var (
 // notDischarged runs every rule on the tree itself and returns the keys that are not discharged there.
 func notDischarged(self, repo string) map[string]bool {
 	out := map[string]bool{}
-	cmd := exec.Command(self, "-all", "-json", "-repo", repo)
-	cmd.Env = append(os.Environ(), "GOCACHE="+goCache())
+	argv := []string{"-all", "-json", "-repo", repo}
+	if selfProp != "" {
+		argv = append(argv, "-prop", selfProp)
+	}
+	cmd := exec.Command(self, argv...)
+	cmd.Env = append(os.Environ(), "GOCACHE="+goCache(), "GOMAXPROCS=4", "GOGC=200")
 	b, _ := cmd.Output()
 	var res struct {
 		Obligations []core.Obligation `json:"obligations"`
